@@ -155,7 +155,13 @@ def _ms_case(ctx, small=False):
         S = sysgen.random_system(rng, g, m, nglob, fs, cs)
         if np.min(np.abs(S.phi[:nref, :]).max(axis=0)) < 0.3:
             continue
-        idx = sysgen.observability_index(S, range(nref))
+        # stress stream: one mode only weakly visible at the references (still visible: the property's premise holds);
+        # the re-basing pseudo-inverse is then ill-conditioned (1e3..1e6) but the identification stays accurate
+        S.weak = None
+        if not small and rng.random() < 0.4:
+            S.weak = 10 ** -rng.uniform(2, 4.5)
+            S.phi[:nref, rng.randrange(m)] *= S.weak
+        idx = sysgen.observability_index(S, range(nref), tol=(1e-9 if S.weak else 1e-6))
         if idx is None or (small and idx > 4):
             continue
         br = idx + 1 + rng.randint(0, 2)
@@ -258,7 +264,7 @@ def oracle(ctx, scale):
         for y in Y:
             H, _ = ssi.build_hank(np.vstack((y["ref"], y["mov"])), y["ref"], br, method)
             sv = np.linalg.svd(H, compute_uv=False)
-            if len(sv) < m2 or sv[m2 - 1] / sv[0] < 1e-7:
+            if len(sv) < m2 or sv[m2 - 1] / sv[0] < (1e-5 if getattr(S, "weak", None) else 1e-7):
                 bad = True
         if bad:
             ctx.skipped += 1
@@ -281,7 +287,7 @@ def oracle(ctx, scale):
             if not (efn <= 1e-7 and exi <= 1e-7 and 1 - mc <= 1e-7):
                 ctx.violation("ms:inaccurate", f"{cls.__name__}: mode {kk}: rel freq err {efn:.2e}, damping err {exi:.2e}, 1-MAC {1 - mc:.2e} (global shape over all sensors)", inp)
                 return
-        ctx.count(f"runs_{cls.__name__}")
+        ctx.count(f"runs_{cls.__name__}" + ("_weakref" if getattr(S, "weak", None) else ""))
 
 
 def replay(rec):
